@@ -40,7 +40,7 @@ CUR: Optional["Sched"] = None  # scheduler of the case currently running
 
 class VT:
     __slots__ = ("name", "go", "state", "cond", "deadline", "timed_out", "exc", "killed", "real", "domain",
-                 "is_proc", "prio", "pid", "rng_state", "py_rng_state", "worker_info", "fn_done", "gen", "exitcode", "self_kill")
+                 "is_proc", "prio", "pid", "rng_state", "py_rng_state", "worker_info", "fn_done", "gen", "exitcode", "self_kill", "planned_exit")
 
     def __init__(self, name, domain, is_proc=False):
         self.name = name
@@ -61,6 +61,7 @@ class VT:
         self.worker_info = None
         self.gen = 0
         self.exitcode = None
+        self.planned_exit = -9
         self.self_kill = False
 
 
@@ -205,12 +206,15 @@ class Sched:
         if me.killed:
             raise VKill()
         self.n_switch += 1
-        if self.kill_plan is not None and me is not self.main and self.kill_plan(self, me):
+        kp = self.kill_plan(self, me) if (self.kill_plan is not None and me is not self.main) else False
+        if kp is not False and kp is not None and (kp is True or isinstance(kp, int)):
             # SIGKILL of the running VT at this switch point: unwind first (further switch points raise
             # VKill at once), the baton is passed on by the thread body's `finally`.
             me.killed = True
             me.self_kill = True
-            me.exitcode = -9
+            # True = SIGKILL (exit code -9); an int = the process ends itself with that status (os._exit(n) in user code)
+            me.exitcode = -9 if kp is True else int(kp)
+            me.planned_exit = me.exitcode
             raise VKill()
         if cond is None:
             me.state = "ready"
@@ -291,7 +295,7 @@ class Sched:
                 fn()
                 vt.exitcode = 0
             except VKill:
-                vt.exitcode = -9
+                vt.exitcode = vt.planned_exit
             except BaseException as e:  # noqa
                 vt.exc = e
                 vt.exitcode = 1
